@@ -249,9 +249,8 @@ class AmplitudeChain(ModelDecay):
 
         fcs = get_from_parser(parsed, "fast_coherent_sum")
         if fcs:
-            (fcs,) = fcs
-            (fcs,) = fcs.children
-            cls.cartesian = bool(fcs)
+            ((fcs,),) = fcs
+            cls.cartesian = bool(int(fcs))
 
         # TODO: re-enable this
         # Combine dual line Cartesian lines into traditional cartesian lines
